@@ -58,6 +58,14 @@ MISSED = {
     "C07_g": "the nonlinear channel's noise stage was only exercised in its default complex mode -> 'cartesian' and 'polar' modes with an identity nonlinearity as channel kinds of their own (deterministic and statistical units)",
     "C12_g": "random bipolar inputs practically always have a -1 in every row -> one planted all-(+1) row per multi-row input and short rows ((50,2), (40,1)): the format is a property of the whole tensor",
     "C17_g": "add/remove-step histories only ran on SequentialModel and ConfigurableModel -> the same histories on DeepJSCCModel and ChannelCodeModel (which inherit add_step / remove_step)",
+    "C05_h": "bit tensors were float32 or int64 -> the same bits as int32, uint8, bool and float64 must modulate to the same symbols",
+    "C09_h": "custom information sets were random subsets -> structured ones in the shared catalogue (a contiguous window touching neither end, the first k positions reversed) and two such links in C09",
+    "C13_h": "channels were built through their own subclasses -> the generic FlatFadingChannel constructor with the options of the other fading types filled in as well",
+    "C14_h": "array forms of the Gray utilities were compared on n < 2^16 only -> lists and int64 tensors of the generated integers up to 2^60 against n XOR (n >> 1) and its inverse",
+    "C16_h": "the BER helper was only called with 1-D inputs -> every shape of the one-shot grid",
+    "C17_h": "the Wyner-Ziv pipeline (a file of this property) was not exercised -> all 16 combinations of its optional stages and given/generated side information with recording stages",
+    "C19_h": "the phase-noise channel was gradient-checked on complex inputs only -> real inputs as well",
+    "C20_h": "integer inputs were int32/int64 -> uint8, int8 and int16 too, and syndrome decoders on codes whose redundancy exceeds 8 bits (BCH(15,7), BCH(15,5), Golay)",
 }
 for tag in sys.argv[1:]:
     pid = tag.split("_")[0]
